@@ -271,6 +271,19 @@ def check_moments(case):
     # the object's own moments are those of the stored distribution
     if not math.isclose(p.Moment(order), ref.moment(stored, R, order), rel_tol=1e-10, abs_tol=1e-300):
         out.fail("moment_Moment", "Moment(order) is not the moment of the stored distribution")
+    own = [
+        ("ZeroMoment", p.ZeroMoment(), ref.moment(stored, R, 0)), ("FirstMoment", p.FirstMoment(), ref.moment(stored, R, 1)),
+        ("SecondMoment", p.SecondMoment(), ref.moment(stored, R, 2)), ("ThirdMoment", p.ThirdMoment(), ref.moment(stored, R, 3)),
+        ("WeightedMoment", p.WeightedMoment(order, w), ref.moment(stored, R, order, w)),
+    ]
+    for name, got, exp in own:
+        if not math.isclose(got, exp, rel_tol=1e-10, abs_tol=1e-300):
+            out.fail("moment_Moment", "%s() = %r is not the moment of the stored distribution (%r)" % (name, got, exp), fn=name)
+    for name, got, exp in (("CumulativeMoment", p.CumulativeMoment(order), ref.cumulative_moment(stored, R, order)),
+                           ("CumulativeWeightedMoment", p.CumulativeWeightedMoment(order, w), ref.cumulative_moment(stored, R, order, w))):
+        got, exp = np.asarray(got, dtype=float), np.asarray(exp, dtype=float)
+        if got.shape != exp.shape or not np.allclose(got, exp, rtol=1e-10, atol=1e-300):
+            out.fail("moment_Moment", "%s() differs from the cumulative moment of the stored distribution" % name, fn=name)
     if N.tobytes() != N0.tobytes() or p.PSD.tobytes() != stored.tobytes():
         out.fail("moment_side_effect", "a moment function modified N or the stored distribution")
     out.nt(bool(np.any(N > 0)) and not np.array_equal(N, stored))
